@@ -62,6 +62,20 @@ def _heading_report_docs():
     return docs
 
 
+ELEMENT_RULES = {"MD034": ("http://", "https://", "ftp://", "ftps://"), "MD033": ("<",), "MD042": ("[", "!["), "MD045": ("![",)}
+
+
+def _element_report_docs():
+    """rules that report ON an inline element: several elements of the same kind per paragraph, on first and later lines, in containers"""
+    docs = []
+    for ctxp, ind in (("", ""), ("> ", "> "), ("- ", "  ")):
+        docs.append("# T\n\n%sMirrors are available at\n%shttp://mirror1.example.com/pub and\n%shttp://mirror2.example.com/pub for download.\n" % (ctxp, ind, ind))
+        docs.append("# T\n\n%sFor details,\n%ssee http://docs.example.com/a and http://docs.example.com/b today, or ftp://x.example/y\n" % (ctxp, ind))
+        docs.append("# T\n\n%sSome <b>bold</b> text\n%sand <i>more</i> with <u>three</u> tags\n%sthen <s>last</s>.\n" % (ctxp, ind, ind))
+        docs.append("# T\n\n%sAn [empty]() link\n%sand [another](#) plus ![](/i.png) image\n%sthen ![ ](/j.png) and [x]( ) end.\n" % (ctxp, ind, ind))
+    return docs
+
+
 def _report_one(text):
     from .. import obs as obsmod, runs
     o = runs.execute([("doc.md", text.encode("utf-8"))], ["scan", "doc.md"], keep_contents=False)
@@ -71,6 +85,10 @@ def _report_one(text):
     bad = []
     for f in obsmod.parse_failures(o["out"]):
         _n, ln, col, rule = f[0], f[1], f[2], f[3]
+        if rule in ELEMENT_RULES and 1 <= ln <= len(lines):
+            if not lines[ln - 1][col - 1:].startswith(ELEMENT_RULES[rule]) or col < 1:
+                bad.append((rule, ln, col, lines[ln - 1]))
+            continue
         if rule not in HEADING_RULES or not (1 <= ln <= len(lines)):
             continue
         line = lines[ln - 1]
@@ -86,7 +104,7 @@ def run(pid, tier):
     ctx = Ctx(pid, tier, "model_checking")
     keep, traces, verdicts = c04.collect(ctx, tier, "pos")
     # ---- what the user sees: reports of the heading rules carry the heading's own position
-    hd = _heading_report_docs()
+    hd = _heading_report_docs() + _element_report_docs()
     hres = impl.pmap(_report_one, hd, procs=16, chunksize=4)
     judged = 0
     for text, bad in zip(hd, hres):
@@ -94,7 +112,7 @@ def run(pid, tier):
             continue
         judged += 1
         for rule, ln, col, line in bad:
-            ctx.violation("report-position-not-on-heading:%s :: %s" % (rule, psweep.doc_shape(text)), {"document": text, "rule": rule, "line": ln, "column": col, "source_line": line})
+            ctx.violation("report-position-not-on-%s:%s :: %s" % ("element" if rule in ELEMENT_RULES else "heading", rule, psweep.doc_shape(text)), {"document": text, "rule": rule, "line": ln, "column": col, "source_line": line})
     ctx.ev.parts["heading_report_documents"] = judged
     # ---- second oracle: the opener positions the block model assigns
     from .. import docspace
